@@ -9,9 +9,14 @@ ENV_ACTIONS = {
 }
 
 
+ALIASES = {'FKill': 'EnvKill', 'FPause': 'EnvPause', 'FPlay': 'EnvPlay', 'FResume': 'EnvResume', 'FFail': 'EnvFail',
+           'FCallSoon': 'EnvCallSoon', 'FRunHandle': 'RunHandle'}
+
+
 def perform(run, action, prev_state, new_state):
     """Perform one specification action on the real process. Returns an error string or None."""
     action, params = split_action(action)
+    action = ALIASES.get(action, action)
     if action == 'RunHandle':
         want = prev_state['ready'][0]
         got = run.run_handle()
